@@ -162,6 +162,54 @@ class Family:
                           "ops": gen_history(g, ln, st == "csv", w, 0.08 if self.prop == "C11" else 0.03)})
         return cases
 
+    def enumerated(self, depth):
+        """every operation sequence of the given depth over a small alphabet, from three start states, in the
+        four configurations (the quantifier of C06; used by the other history properties in the thorough tier)"""
+        hx = V.hx
+        T0 = G.T0
+
+        def pt(t, m, tags=(), fields=()):
+            return ["pt", str(T0 + t), hx(m), ["tags"] + [[hx(k), (hx(v) if v is not None else "~")] for k, v in tags],
+                    ["fields"] + [[hx(k), v] for k, v in fields]]
+
+        qa = ["not", ["field", hx("f"), ["cmp", "eq", "n:1"]]]          # inexact
+        qt = ["time", ["cmp", "le", f"t:{T0 + 2}"]]
+        qg = ["tag", hx("a"), ["cmp", "eq", "s:" + hx("x")]]
+        noargs = [["time", "~"], ["meas", "~"], ["tags", "~"], ["fields", "~"], ["unsettags"], ["unsetfields"]]
+
+        def upd(q, m, **kw):
+            a = [list(x) for x in noargs]
+            for k, v in kw.items():
+                a[{"time": 0, "meas": 1, "tags": 2, "fields": 3}[k]][1] = v
+            return ["update", "0", q, m] + a
+
+        alphabet = [
+            ["ins", "~", pt(3, "m1", [("a", "x")], [("f", "1")])],
+            ["ins", "~", pt(1, "m2", [("a", None)], [("f", "0")])],                 # out of order after the first
+            ["ins", "~", pt(3, "m1", [("b", "y")])],                                # tie
+            ["ins", hx("m2"), pt(5, "m1", [], [("g", "5/2")]), "!", pt(6, "m1")],   # aborted insert_multiple
+            ["count", qa, "~"], ["search", qt, hx("m1"), "1"], ["H", ["get", qg, hx("m2")]],
+            ["timestamps", "~"], ["fieldvalues", hx("f"), hx("m1")], ["len"],
+            ["remove", qt, "~"], ["remove", qa, "~"], ["H", ["remove", qg, hx("m1")]],
+            ["drop", hx("m2")], ["removeall"],
+            upd(qg, "~", tags=["s", [hx("a"), hx("z")]]),
+            upd(["noop", "time"], "~", time=["c", "addus", "-2"]),
+            upd(["noop", "time"], "~", fields=["c", "raiseifhas", hx("g")]),
+            ["reindex"],
+        ]
+        starts = [[], [alphabet[0], alphabet[2]], [alphabet[0], alphabet[1], ["reindex"]]]
+        import itertools
+
+        cases = []
+        for st, au in CFGS:
+            for s0 in starts:
+                for seq in itertools.product(alphabet, repeat=depth):
+                    ops = list(s0) + list(seq)
+                    if st == "csv":
+                        pass
+                    cases.append({"cfg": ["cfg", st, au], "ops": ops})
+        return cases
+
     def nontrivial(self, case):
         names = {D.op_name(o) for o in case["ops"]}
         own = {"C01": D.READ_OPS, "C02": D.REMOVE_OPS, "C03": {"update"}, "C06": D.REMOVE_OPS | {"ins", "update"},
@@ -179,13 +227,20 @@ class Family:
     def run(self, tier, model_ok, search):
         res = Result()
         with_probes = self.prop == "C06"
-        n = {"quick": 3200, "thorough": 80000}[tier]
+        n = {"quick": 8000, "thorough": 160000}[tier]
         if with_probes:
             n //= 3
         if search:
             n *= 3
         maxlen = 10 if tier == "quick" else 24
         cases = self.corpus() + self.random_cases(n, C.seed() * 31 + int(self.prop[1:]), maxlen)
+        enum_depth = 0
+        if self.prop == "C06":
+            enum_depth = 2 if tier == "quick" else 3
+        elif tier == "thorough":
+            enum_depth = 2
+        enum_cases = self.enumerated(enum_depth) if enum_depth else []
+        cases += enum_cases
         nproc = min(16, os.cpu_count() or 4)
         chunk = max(8, (len(cases) + nproc * 2 - 1) // (nproc * 2))
         jobs = [(cases[i:i + chunk], model_ok, with_probes) for i in range(0, len(cases), chunk)]
@@ -206,7 +261,9 @@ class Family:
         res.traces = len(cases) if model_ok else 0
         res.coverage = {"operation_histogram": {k: v for k, v in sorted(stats.items())},
                         "configurations": ["csv/auto", "csv/noauto", "mem/auto", "mem/noauto"],
-                        "exhaustive": False}
+                        "exhaustive": False, "enumerated_histories": len(enum_cases),
+                        "enumeration": (f"every sequence of {enum_depth} operations over a 19-operation alphabet from 3 start "
+                                        f"states in 4 configurations" if enum_depth else "none in this tier")}
         res.samples = [{"cfg": c["cfg"], "ops": [V.sx(o) for o in c["ops"]][:6]} for c in cases[-3:]]
         # findings for this property
         foreign = 0
